@@ -48,7 +48,7 @@ ASSUMPTIONS = [
     "in the cross-process part an exchange is: take the lock, draw 1-3 "
     "counters, wait (other tasks of the process may run), leave",
 ]
-EXAMPLES = {"quick": 60, "thorough": 1500}
+EXAMPLES = {"quick": 60, "thorough": 5000}
 MIN_NONTRIVIAL = {"quick": 200, "thorough": 3000}
 
 
